@@ -63,7 +63,7 @@ def inputs(prop, tier):
                ("attvalue", ["<a b=\"", h, "\"/>"]),
                ("content", ["<a>", h, "</a>"])]
     else:
-        n = 6 if tier == "quick" else 8
+        n = 6 if tier == "quick" else 7      # length 8 did not finish within 45 min on 16 cores
         free = list(range(0, n + 1))
         tpl = [("parens", ["((((", 3 if tier == "quick" else 4, "))))"]),
                ("calls", ["f(f(f(", 3 if tier == "quick" else 4, ")))"]),
